@@ -203,9 +203,98 @@ package dns
 //@ iface EDNS0.unpack [C01 C02]
 //@ iface SVCBKeyValue.unpack [C01 C02]
 
+// The option code selects the Go type that decodes it, by the IANA "DNS EDNS0 Option Codes" registry; every other
+// code is carried as EDNS0_LOCAL with that code.  Each type reports the same code back (Option), which is what pack
+// writes: a decoded option is written out under the code it arrived with.
 //@ func makeDataOpt [C01 C02]
 //@   ensures ret0 != nil
+//@   ensures table: (code == 1 ==> isptrtype(ret0, EDNS0_LLQ)) && (code == 2 ==> isptrtype(ret0, EDNS0_UL)) && (code == 3 ==> isptrtype(ret0, EDNS0_NSID)) && (code == 4 ==> isptrtype(ret0, EDNS0_ESU)) && (code == 5 ==> isptrtype(ret0, EDNS0_DAU)) && (code == 6 ==> isptrtype(ret0, EDNS0_DHU)) && (code == 7 ==> isptrtype(ret0, EDNS0_N3U)) && (code == 8 ==> isptrtype(ret0, EDNS0_SUBNET)) && (code == 9 ==> isptrtype(ret0, EDNS0_EXPIRE)) && (code == 10 ==> isptrtype(ret0, EDNS0_COOKIE)) && (code == 11 ==> isptrtype(ret0, EDNS0_TCP_KEEPALIVE)) && (code == 12 ==> isptrtype(ret0, EDNS0_PADDING)) && (code == 15 ==> isptrtype(ret0, EDNS0_EDE)) && (code == 18 ==> isptrtype(ret0, EDNS0_REPORTING)) && (code == 19 ==> isptrtype(ret0, EDNS0_ZONEVERSION))
+//@   ensures local: code != 1 && code != 2 && code != 3 && code != 4 && code != 5 && code != 6 && code != 7 && code != 8 && code != 9 && code != 10 && code != 11 && code != 12 && code != 15 && code != 18 && code != 19 ==> isptrtype(ret0, EDNS0_LOCAL) && asptr(ret0, EDNS0_LOCAL).Code == code
+//@ func (*EDNS0_LLQ).Option [C01]
+//@   ensures code: ret0 == 1
+//@   pure
+//@ func (*EDNS0_UL).Option [C01]
+//@   ensures code: ret0 == 2
+//@   pure
+//@ func (*EDNS0_NSID).Option [C01]
+//@   ensures code: ret0 == 3
+//@   pure
+//@ func (*EDNS0_ESU).Option [C01]
+//@   ensures code: ret0 == 4
+//@   pure
+//@ func (*EDNS0_DAU).Option [C01]
+//@   ensures code: ret0 == 5
+//@   pure
+//@ func (*EDNS0_DHU).Option [C01]
+//@   ensures code: ret0 == 6
+//@   pure
+//@ func (*EDNS0_N3U).Option [C01]
+//@   ensures code: ret0 == 7
+//@   pure
+//@ func (*EDNS0_SUBNET).Option [C01]
+//@   ensures code: ret0 == 8
+//@   pure
+//@ func (*EDNS0_EXPIRE).Option [C01]
+//@   ensures code: ret0 == 9
+//@   pure
+//@ func (*EDNS0_COOKIE).Option [C01]
+//@   ensures code: ret0 == 10
+//@   pure
+//@ func (*EDNS0_TCP_KEEPALIVE).Option [C01]
+//@   ensures code: ret0 == 11
+//@   pure
+//@ func (*EDNS0_PADDING).Option [C01]
+//@   ensures code: ret0 == 12
+//@   pure
+//@ func (*EDNS0_EDE).Option [C01]
+//@   ensures code: ret0 == 15
+//@   pure
+//@ func (*EDNS0_REPORTING).Option [C01]
+//@   ensures code: ret0 == 18
+//@   pure
+//@ func (*EDNS0_ZONEVERSION).Option [C01]
+//@   ensures code: ret0 == 19
+//@   pure
+//@ func (*EDNS0_LOCAL).Option [C01]
+//@   requires e != nil
+//@   ensures code: ret0 == e.Code
+//@   pure
+// likewise for SVCB parameters (RFC 9460 14.3.2, RFC 9461, RFC 9540); key 65535 is reserved and has no value type
 //@ func makeSVCBKeyValue [C01 C02]
+//@   ensures table: (key == 0 ==> isptrtype(ret0, SVCBMandatory)) && (key == 1 ==> isptrtype(ret0, SVCBAlpn)) && (key == 2 ==> isptrtype(ret0, SVCBNoDefaultAlpn)) && (key == 3 ==> isptrtype(ret0, SVCBPort)) && (key == 4 ==> isptrtype(ret0, SVCBIPv4Hint)) && (key == 5 ==> isptrtype(ret0, SVCBECHConfig)) && (key == 6 ==> isptrtype(ret0, SVCBIPv6Hint)) && (key == 7 ==> isptrtype(ret0, SVCBDoHPath)) && (key == 8 ==> isptrtype(ret0, SVCBOhttp))
+//@   ensures reserved: key == 65535 ==> ret0 == nil
+//@   ensures local: key > 8 && key != 65535 ==> isptrtype(ret0, SVCBLocal) && asptr(ret0, SVCBLocal).KeyCode == key
+//@ func (*SVCBMandatory).Key [C01]
+//@   ensures key: ret0 == 0
+//@   pure
+//@ func (*SVCBAlpn).Key [C01]
+//@   ensures key: ret0 == 1
+//@   pure
+//@ func (*SVCBNoDefaultAlpn).Key [C01]
+//@   ensures key: ret0 == 2
+//@   pure
+//@ func (*SVCBPort).Key [C01]
+//@   ensures key: ret0 == 3
+//@   pure
+//@ func (*SVCBIPv4Hint).Key [C01]
+//@   ensures key: ret0 == 4
+//@   pure
+//@ func (*SVCBECHConfig).Key [C01]
+//@   ensures key: ret0 == 5
+//@   pure
+//@ func (*SVCBIPv6Hint).Key [C01]
+//@   ensures key: ret0 == 6
+//@   pure
+//@ func (*SVCBDoHPath).Key [C01]
+//@   ensures key: ret0 == 7
+//@   pure
+//@ func (*SVCBOhttp).Key [C01]
+//@   ensures key: ret0 == 8
+//@   pure
+//@ func (*SVCBLocal).Key [C01]
+//@   requires s != nil
+//@   ensures key: ret0 == s.KeyCode
+//@   pure
 
 //@ func unpackDataOpt [C01 C02]
 //@   assert at "overflow unpacking opt@1" e1: off + 4 > len(msg) [C01]
